@@ -995,8 +995,75 @@ def opt_keyed_struct_paths(t, path=(), reach=True):
     return out
 
 
-def gen_keyed_type(r, ver=None, collide=False, depth=2, counter=None, top=True, exotic=False, optkey=False):
+def key_struct_paths(t, path=()):
+    """(path of an earlier key member, path of a later KEY member of structure type whose structure has a key-flagged
+    member with the id of that earlier key member) - within one structure the key traversal reaches"""
+    out = []
+    if t[0] == "struct":
+        for j, m in enumerate(t[2]):
+            if m[2] and m[4][0] == "struct":
+                inner = [im[0] for im in m[4][2] if im[2]]
+                for i, e in enumerate(t[2][:j]):
+                    if e[2] and e[0] in inner:
+                        out.append((path + (i,), path + (j,)))
+            elif not m[2] and not m[1] and m[4][0] == "struct":
+                out += key_struct_paths(m[4], path + (j,))
+    return out
+
+
+def add_key_struct(r, t):
+    """follow-up 5: append to the top structure a KEY member of structure type whose structure has key members of its
+    own, the first of them with the member id (and, 3 times in 4, the type) of an earlier outer key member - the natural
+    numbering of a keyed type reused as a key (`Sensor{@key id (0); @key Location location (1)}`, `Location{@key zone (0)}`).
+    The code copies a key member whole and does not descend into it: the inner key flags are irrelevant."""
+    ms = list(t[2])
+    outer = [(i, m) for i, m in enumerate(ms) if m[2] and not m[1]]
+    if not outer:
+        return t
+    i, e = r.choice(outer)
+    ids = [m[0] for m in ms]
+    same = r.chance(3, 4) and e[4][0] in ("prim", "str", "enum")
+    it = e[4] if same else ("prim", r.choice(["u8", "u16", "u32", "u64"]))
+    inner = [(e[0], False, True, False, it)]
+    for j in range(r.below(3)):
+        inner.append((max(ids + [e[0]]) + 2 + j, False, r.chance(1, 2), False, ("prim", r.choice(["u8", "u16", "u32"]))))
+    new = (max(ids) + 1 + (1 if max(ids) == 0 else 0), False, True, False, ("struct", r.choice("FFA"), inner))
+    ms.insert(r.range(i + 1, len(ms)), new)
+    return ("struct", t[1], ms)
+
+
+def change_at(r, t, v, path, ver=None):
+    """a copy of v with another value for the member at `path` (None if that is not possible)"""
+    def ty_at(tt, pp):
+        for i in pp:
+            tt = tt[2][i][4]
+        return tt
+
+    def rebuild(vv, pp):
+        if vv is None:
+            return None
+        fs = list(vv[1])
+        if len(pp) == 1:
+            cur = fs[pp[0]]
+            for _ in range(30):
+                nv = gen_value(r, ty_at(t, path), Knobs(ver=ver, optional=0), ver=ver)
+                if cur is None or val_text(nv) != val_text(cur):
+                    fs[pp[0]] = nv
+                    return ("rec", fs)
+            return None
+        sub = rebuild(fs[pp[0]], pp[1:])
+        if sub is None:
+            return None
+        fs[pp[0]] = sub
+        return ("rec", fs)
+    return rebuild(v, path)
+
+
+def gen_keyed_type(r, ver=None, collide=False, depth=2, counter=None, top=True, exotic=False, optkey=False,
+                   keystruct=False):
     t = gen_keyed_type0(r, ver, collide, depth, counter, top, exotic)
+    if keystruct and top:
+        t = add_key_struct(r, t)
     if optkey and top and not opt_keyed_struct_paths(t):
         # follow-up 3: an optional member whose structure type has key members of its own (a keyed type reused as an
         # optional sub-structure); placed at the top level or inside a non-optional nested structure
